@@ -6,6 +6,7 @@ import re
 
 from flow.record.base import GroupedRecord, Record, dynamic_fieldtype
 from flow.record.fieldtypes import net
+from flow.record.fieldtypes.net import ipv4, tcp, udp  # noqa: F401 - net.<module> must resolve in compiled selectors
 from flow.record.whitelist import WHITELIST, WHITELIST_TREE
 
 try:
